@@ -132,6 +132,8 @@ impl<'a, R: RealNumberInternalTrait> Default for LibraryLoader<'a, R> {
 pub struct Interpreter<'a, R: RealNumberInternalTrait> {
     pub env: Rc<Environment<R>>,
     lib_loader: LibraryLoader<'a, R>,
+    // libraries are instantiated once per interpreter: every import refers to the same instance
+    library_instances: HashMap<LibraryName, Library<R>>,
     imported_library: HashSet<LibraryName>,
     import_end: bool, // indicate program's import declaration part end
     pub program_directory: Option<PathBuf>,
@@ -149,6 +151,7 @@ impl<'a, R: RealNumberInternalTrait> Interpreter<'a, R> {
         let mut interpreter = Self {
             env: environment,
             lib_loader: LibraryLoader::default(),
+            library_instances: HashMap::new(),
             imported_library: HashSet::new(),
             import_end: false,
             program_directory: None,
@@ -180,11 +183,17 @@ impl<'a, R: RealNumberInternalTrait> Interpreter<'a, R> {
         &self.lib_loader
     }
     pub fn append_lib_loader(&mut self, lib_loader: LibraryLoader<'a, R>) {
+        for name in lib_loader.lib_factories.keys() {
+            self.library_instances.remove(name);
+        }
         self.lib_loader
             .lib_factories
             .extend(lib_loader.lib_factories.into_iter());
     }
     pub fn register_library_factory(&mut self, library_factory: LibraryFactory<'a, R>) {
+        // a newly registered factory replaces the instance made by an older one
+        self.library_instances
+            .remove(library_factory.get_library_name());
         self.lib_loader.register_library_factory(library_factory);
     }
 
@@ -519,6 +528,9 @@ impl<'a, R: RealNumberInternalTrait> Interpreter<'a, R> {
         }
     }
     pub fn get_library(&mut self, name: Located<LibraryName>) -> Result<Library<R>> {
+        if let Some(library) = self.library_instances.get(&name) {
+            return Ok(library.clone());
+        }
         let factory = match self.lib_loader.lib_factories.get(&name) {
             Some(factory) => factory,
             None => {
@@ -530,7 +542,10 @@ impl<'a, R: RealNumberInternalTrait> Interpreter<'a, R> {
             }
         }
         .clone();
-        self.new_library(&factory)
+        let library = self.new_library(&factory)?;
+        self.library_instances
+            .insert(name.deref().clone(), library.clone());
+        Ok(library)
     }
     pub fn eval_import_set(&mut self, import: &ImportSet) -> Result<Vec<(String, Value<R>)>> {
         match &import.data {
